@@ -31,7 +31,7 @@ C("C06", "proptest fault injection on a well-formed twin (arity, index out of ra
 C("C07", "exhaustive enumeration of small shapes x every range-flag subset + proptest random lines with forced positions (15..18, 31..34, first/last/sparse); independent rangeMappings reader/writer; lookup shift model",
   EXPL + "Decoder side, encoder side, round trip and lookups are each compared with the model.",
   "Documents without empty segments; saturating shifts are crash-freedom only.")
-C("C08", "proptest model-based: reference flattener and section-wise reference lookup over generated indexes (nested, Hermes, url-only, same-line sections), index lookup == flattened lookup, flatten_and_rewrite == flatten+rewrite",
+C("C08", "proptest model-based: reference flattener and section-wise reference lookup over generated indexes (nested, Hermes, url-only, same-line sections), index lookup == flattened lookup, flatten_and_rewrite == flatten+rewrite; living-index histories (mutators below sections, sections overwritten at new offsets) with the same oracles after every step",
   EXPL + "Tokens are clipped below the next section's offset by construction (the statement's precondition).",
   "Small coordinates; ties accept any member of the tie set.")
 C("C09", "proptest metamorphic relation: rewrite(options) must preserve what every token resolves to; prefixes derived from the map's own source names; Hermes scopes before/after; lookups at every token position resolve to corresponding tokens before and after",
@@ -43,7 +43,7 @@ C("C10", "exhaustive small grids + proptest random pairs against a brute-force i
 C("C12", "proptest + exhaustive chunkings: differential reader vs slice vs data URL under a harness Read that serves generated chunkings; thorough tier adds a libFuzzer target over (chunk sizes, document)",
   EXPL + "Every subset of cut points for the small documents; generated cuts always offered around the header end.",
   "The harness reader never returns 0 before EOF.")
-C("C13", "proptest stateful histories (vec of builder/map operations + interpreter) against an interning model",
+C("C13", "proptest stateful histories (vec of builder/map operations + interpreter) against an interning model; cloned-from maps kept alive and re-read after later operations",
   EXPL + "Returned ids, resolved tokens and the serialised raw names/root are checked after every map operation.",
   "Setter preconditions (existing id) are respected by construction.")
 C("C14", "proptest model-based: Metro-style function maps written by the harness, independent Metro reader + linear scan as oracle, answers repeated after a round trip; bytecode offsets inside range mappings",
@@ -61,7 +61,7 @@ C("C17", "proptest generated minified programs + maps against an independent ref
 C("C18", "proptest: generated files against a reference scan (slice, chunked reader and SourceView::sourcemap_reference), data-URL round trip incl. discovery from a comment, detection predicate on all map kinds",
   EXPL,
   "Valid UTF-8 texts with \\n / \\r\\n endings.")
-C("C19", "exhaustive enumeration (57 600 pairs) + proptest random pairs against a reference path resolver",
+C("C19", "exhaustive enumeration (57 600 pairs, plus look-alike and dot-leading names) + proptest random pairs against a reference path resolver",
   EXPL,
   "Ordinary components, both paths of the same kind (the statement's precondition).")
 C("C20", "proptest model bundles with every truncation and field edits + arbitrary bytes against an independent header reader; iterator-protocol conformance of iter_modules(); slice and owning entry points compared; thorough tier adds a libFuzzer target (ASan)",
